@@ -23,6 +23,10 @@
 #include <nop/types/variant.h>
 #include <nop/utility/buffer_reader.h>
 #include <nop/utility/buffer_writer.h>
+#include <nop/utility/fd_reader.h>
+#include <nop/utility/fd_writer.h>
+#include <sys/mman.h>
+#include <unistd.h>
 #include <nop/utility/stream_reader.h>
 #include <nop/utility/stream_writer.h>
 
@@ -136,6 +140,33 @@ std::string RoundTripTab(long n) {
   return s;
 }
 
+// a record through the thread's own file descriptors; the serializer is built from a moved FdWriter, the usual way
+static nop::Serializer<nop::FdWriter> MakeFdSerializer(int fd) {
+  nop::FdWriter writer{fd};
+  return nop::Serializer<nop::FdWriter>{std::move(writer)};
+}
+std::string RoundTripFd(long n) {
+  int fd = memfd_create("thr", 0);
+  if (fd < 0) return "fail:memfd";
+  int rfd = dup(fd);
+  std::string text = "fd-" + std::to_string(n) + std::string(static_cast<size_t>(n % 11), 'z');
+  std::string out;
+  {
+    nop::Serializer<nop::FdWriter> ser = MakeFdSerializer(fd);       // owns fd
+    auto st = ser.Write(text);
+    auto st2 = ser.Write(static_cast<std::uint32_t>(n * 2654435761u));
+    out = (st && st2) ? "ok" : "fail";
+  }
+  lseek(rfd, 0, SEEK_SET);
+  {
+    nop::Deserializer<nop::FdReader> des{rfd};                          // owns rfd
+    std::string back; std::uint32_t k = 0;
+    auto st = des.Read(&back); auto st2 = des.Read(&k);
+    out += std::string(":") + ((st && st2 && back == text && k == static_cast<std::uint32_t>(n * 2654435761u)) ? "same" : "diff");
+  }
+  return out;
+}
+
 struct NoDes { template <typename T> nop::Status<void> Read(T*) { return nop::ErrorStatus::ReadLimitReached; } };
 
 std::string Rpc(long n) {
@@ -194,6 +225,7 @@ void RunScript(const std::vector<std::string>& ops, std::uint64_t seed, bool con
       case 'E': obs = "E:" + RoundTripRec(x0); break;
       case 'T': obs = "T:" + RoundTripTab(x0); break;
       case 'R': obs = "R:" + Rpc(x0); break;
+      case 'F': obs = "F:" + RoundTripFd(x0); break;
     }
     if (!obs.empty()) { if (!out->empty()) *out += ","; *out += obs; }
     if (concurrent) {
